@@ -847,25 +847,57 @@ def run(ctx):
 def search(ctx, pending):
     """Failing-input search: the Lean specification on the implementation over the exhaustive small space."""
     from vlib.cases import Sub
+    from vlib.core import load_findings, match_finding
     sub = Sub(ctx)
     sub.overlay_root = ctx.overlay_root
     rng = ctx.rng
-    plan = []
-    for n in (2, 3):
-        for es in all_digraphs(n):
-            if not es:
-                continue
-            a = mk(n, es)
-            g = gdesc(a)
-            for d in (0.5, 0.85):
-                for w in weights_variants(rng, a, 3):
-                    for solver in SOLVERS:
-                        if solver == 'push':
-                            continue
-                        plan.append({'job': {'kind': 'pagerank', 'graph': g, 'damping': d, 'weights': w, 'solver': solver,
-                                             'n_iter': iters_for(d), 'tol': 0.0}, 'check': 'spec', 'name': 'search'})
-    eval_pagerank(sub, plan, [1, 16])
-    return sub.found()
+    entries = {(p[1] or {}).get('entry') for p in pending}
+    others = {'Katz', 'Closeness', 'Betweenness', 'HITS'}
+    if not entries or entries - others:
+        plan = []
+        for n in (2, 3):
+            for es in all_digraphs(n):
+                if not es:
+                    continue
+                a = mk(n, es)
+                g = gdesc(a)
+                for d in (0.5, 0.85):
+                    for w in weights_variants(rng, a, 3):
+                        for solver in SOLVERS:
+                            if solver == 'push':
+                                continue
+                            plan.append({'job': {'kind': 'pagerank', 'graph': g, 'damping': d, 'weights': w, 'solver': solver,
+                                                 'n_iter': iters_for(d), 'tol': 0.0}, 'check': 'spec', 'name': 'search'})
+        eval_pagerank(sub, plan, [1, 16])
+    if entries & others:
+        plan = []
+        for n in (2, 3):
+            for es in all_digraphs(n, loops=(n == 2)):
+                if not es:
+                    continue
+                g = gdesc(mk(n, es))
+                for d, k in ((0.5, 1), (0.5, 3), (2.0, 2)):
+                    plan.append({'kind': 'katz', 'graph': g, 'damping': d, 'path_length': k})
+                if weakly_connected(n, es):
+                    plan.append({'kind': 'closeness', 'graph': g})
+                    plan.append({'kind': 'betweenness', 'graph': g, 'directed': not is_symmetric_edges(es)})
+        for es in all_undirected(4):
+            if es and weakly_connected(4, es):
+                plan.append({'kind': 'betweenness', 'graph': gdesc(mk(4, es)), 'directed': False})
+                plan.append({'kind': 'closeness', 'graph': gdesc(mk(4, es))})
+        for _ in range(30):
+            nr, nc = rng.randint(2, 4), rng.randint(2, 4)
+            dense = np.array([[rng.choice([0, 1, 1, 2]) for _ in range(nc)] for _ in range(nr)], dtype=float)
+            if dense.sum() == 0:
+                dense[0, 0] = 1
+            b = sparse.csr_matrix(dense)
+            plan.append({'kind': 'hits', 'shape': [nr, nc], 'graph': {'n': nr, 'indptr': [int(x) for x in b.indptr],
+                         'indices': [int(x) for x in b.indices], 'data': [float(x) for x in b.data]}})
+        eval_other(sub, plan)
+    # a failing input that is a recorded finding says nothing about what broke the tie: only new ones count
+    known = load_findings()
+    fresh = [f for f in sub.spec_failures if match_finding(known, ctx.prop, f['sig']) is None]
+    return [{'sig': f['sig'], 'case': f['case'], 'detail': f['detail']} for f in fresh[:5]]
 
 
 def replay(ctx, payload):
